@@ -16,7 +16,7 @@ RULE = ('cases: (1) cmp on ALL ordered pairs of a fixed %d-value universe (None,
         'compared with the model, laws checked; (3) sort(xs) and sorted(xs, key=Cmp) on lists (0-8, thorough 0-12) of scalars from the property domain '
         '(None, ints, finite floats, NaN, str, datetimes) and equal-length tuples of them - compared element by element (identity of NaN included) with '
         'the model stable sort, oracle = permutation and non-decreasing under the real cmp; (4) dictable.sort on tables of 0-8 rows, 2-4 columns, key '
-        'columns (as arguments or as one list) / key functions / explicit value orders - whole result table and the result of sorting it again compared with the model; oracle = '
+        'columns (as arguments or as one list) / key functions / explicit value orders, plus large tables of 101-400 rows with few distinct keys and a row-id column - whole result table and the result of sorting it again compared with the model; oracle = '
         'stable index sort by key (ties by original position), idempotent, value-order placement. non-trivial = comparison decided below the type '
         'level / sort or table sort that moves something; distinct by full input')
 
@@ -153,9 +153,13 @@ UNIVERSE = [
 RULE = RULE % len(UNIVERSE)
 
 # ------------------------------------------------------------------ Coq side
-COQ_PRELUDE = 'Definition U : list val := [' + ';\n '.join(coq_val(v) for v in UNIVERSE) + '].\n'
+LANES = 6
+COQ_PRELUDE = 'Definition U : list val := [' + ';\n '.join(coq_val(v) for v in UNIVERSE) + '].\n' + \
+    ''.join('Definition run_dsort_b%d := run_dsort.\n' % i for i in range(LANES))
 
 def coq_runner(case):
+    if 'lane' in case:                  # large tables go to their own cases files so that they are evaluated in parallel
+        return 'run_dsort_b%d' % (case['lane'] % LANES)
     return {'cmp_row': 'run_cmp_row', 'cmp_laws': 'run_cmp_row', 'cmp3': 'run_cmp3', 'sort': 'run_sort', 'dsort': 'run_dsort'}[case['kind']]
 
 def coq_table(cols):
@@ -373,7 +377,7 @@ def shape(case):
     if k == 'dsort':
         s = case['spec']
         if 'byval' in s: return 'dsort:byval%d' % len(s['byval'])
-        return 'dsort:by%d%s%s' % (len(s['by']), '+fn' if any(x[0] == 'fn' for x in s['by']) else '', '+aslist' if s.get('aslist') else '')
+        return 'dsort:by%d%s%s%s' % (len(s['by']), '+fn' if any(x[0] == 'fn' for x in s['by']) else '', '+aslist' if s.get('aslist') else '', ':big' if 'lane' in case else '')
     return k
 
 # ------------------------------------------------------------------ generation
@@ -520,6 +524,20 @@ def rand_dsort(rng, tier):
         spec = {'byval': bv}
     return {'kind': 'dsort', 'cols': cols, 'spec': spec}
 
+def rand_big_dsort(rng, lane):
+    """more than 100 rows, few distinct keys: stability (ties keep the original order) on large tables"""
+    n = rng.randrange(101, 401)
+    variant = rng.choice(['int1', 'int1', 'int2', 'mixed', 'mixed2', 'byval'])
+    a = [['i', rng.randrange(0, 5)] for _ in range(n)]
+    if variant.startswith('mixed'):
+        a = [rng.choice([None, ['s', 'x'], ['f', 2 * v[1]], ['nan', rng.randrange(2)]]) if rng.random() < 0.15 else v for v in a]
+    cols = [['a', a], ['v', [['i', i] for i in range(n)]]]
+    by = [['col', 'a']]
+    if variant in ('int2', 'mixed2'):
+        cols.insert(1, ['b', [['i', rng.randrange(0, 3)] for _ in range(n)]]); by = rng.choice([[['col', 'a'], ['col', 'b']], [['col', 'b'], ['col', 'a']], [['fn', 'neg', 'b'], ['col', 'a']]])
+    spec = {'by': by} if variant != 'byval' else {'byval': [['a', [['i', 3], ['i', 1]]]]}
+    return {'kind': 'dsort', 'cols': cols, 'spec': spec, 'lane': lane}
+
 def dedupe(vals):
     out = []
     for v in vals:
@@ -541,6 +559,8 @@ def gen_cases(rng, tier):
         cases.append({'kind': 'sort', 'xs': rand_sort_list(rng, tier)})
     for _ in range(900 if q else 12000):
         cases.append(rand_dsort(rng, tier))
+    for i in range(12 if q else 60):
+        cases.append(rand_big_dsort(rng, i))
     return cases
 
 def shrink(case):
@@ -554,7 +574,13 @@ def shrink(case):
                 yield dict(case, xs=xs[:i] + [['i', 0]] + xs[i + 1:])
     elif k == 'dsort':
         cols = case['cols']; n = len(cols[0][1]) if cols else 0
-        for i in range(n):
+        size = n // 2
+        while size >= 2:                               # blocks of rows first (large tables), then single rows
+            for i in range(0, n, size):
+                yield dict(case, cols=[[c, cells[:i] + cells[i + size:]] for c, cells in cols])
+            size //= 2
+            if n > 60 and size < n // 8: break        # large tables: coarse blocks only (every candidate is a fresh run of the implementation)
+        for i in range(n if n <= 60 else 0):
             yield dict(case, cols=[[c, cells[:i] + cells[i + 1:]] for c, cells in cols])
         used = set(x[-1] for x in case['spec'].get('by', [])) | set(c for c, _ in case['spec'].get('byval', []))
         for j, (c, _) in enumerate(cols):
